@@ -48,6 +48,8 @@ use std::sync::Arc;
 use std::time::Duration;
 use vharness::trace::TraceWriter;
 
+static LAST_PANIC: std::sync::Mutex<(String, Vec<String>)> = std::sync::Mutex::new((String::new(), Vec::new()));
+
 struct NullLogger;
 impl Logger for NullLogger {
 	fn log(&self, record: Record) {
@@ -410,7 +412,8 @@ fn run_case(case: &Value, seed: u64, idx: usize) -> Value {
 				.cloned()
 				.or_else(|| p.downcast_ref::<&str>().map(|s| s.to_string()))
 				.unwrap_or_default();
-			json!({"ev": "panic", "g": g, "req": req, "msg": msg})
+			let (loc, frames) = LAST_PANIC.lock().unwrap().clone();
+			json!({"ev": "panic", "g": g, "req": req, "msg": msg, "loc": loc, "frames": frames})
 		},
 		Ok(Ok(route)) => {
 			let mut paths = Vec::new();
@@ -781,7 +784,23 @@ fn main() {
 		}
 		i += 1;
 	}
-	std::panic::set_hook(Box::new(|_| {}));
+	// record where a panic of the library came from (location + the lightning frames of the
+	// backtrace); the record of the panicking case carries it
+	std::panic::set_hook(Box::new(|info| {
+		let loc = info.location().map(|l| format!("{}:{}", l.file(), l.line())).unwrap_or_default();
+		let bt = std::backtrace::Backtrace::force_capture().to_string();
+		let mut frames: Vec<String> = Vec::new();
+		for ln in bt.lines() {
+			let t = ln.trim();
+			if let Some(pos) = t.find("lightning::") {
+				let f = t[pos..].to_string();
+				if !frames.contains(&f) && frames.len() < 6 {
+					frames.push(f);
+				}
+			}
+		}
+		*LAST_PANIC.lock().unwrap() = (loc, frames);
+	}));
 	let mut tw = TraceWriter::create(&out.expect("--out"));
 	let mut cw = cases_out.map(|p| std::io::BufWriter::new(std::fs::File::create(p).unwrap()));
 	let mut cases: Vec<(String, Value)> = Vec::new();
